@@ -149,11 +149,30 @@ def check_pool(ctx):
                     break
             if bad:
                 break
+    # many threads (more than any fixed read-ahead cap) and the degenerate
+    # counts 0 / -1 (which mean one worker)
+    if bad is None:
+        for T in (40, 0, -1):
+            for n in (0, 1, 7, 100):
+                n_eval += 1
+
+                def full(T=T, n=n):
+                    with LazyPool(T) as pool:
+                        return list(pool.imap_unordered(lambda x: 2 * x,
+                                                        range(n)))
+                st, v = _run(full)
+                if st != "ok" or collections.Counter(v) != \
+                        collections.Counter(2 * i for i in range(n)):
+                    bad = dict(T=T, n=n, outcome=st, value=repr(v)[:200])
+                    break
+            if bad:
+                break
     # a consumer that pauses (6 s) between two results still gets every
     # result: a worker that finds nothing to do must wait, not give up
     if bad is None:
         n_eval += 1
         T, n = 3, 40
+        pause = 6.0 if tier == "quick" else 12.0
 
         def slow_consumer():
             got = []
@@ -161,12 +180,12 @@ def check_pool(ctx):
                 for y in pool.imap_unordered(lambda x: 2 * x, range(n)):
                     got.append(y)
                     if len(got) == 2:
-                        time.sleep(6.0)
+                        time.sleep(pause)
             return got
-        st, v = _run(slow_consumer)
+        st, v = _run(slow_consumer, timeout=40)
         if st != "ok" or collections.Counter(v) != collections.Counter(
                 2 * i for i in range(n)):
-            bad = dict(T=T, n=n, consumer_pause_s=6.0, outcome=st,
+            bad = dict(T=T, n=n, consumer_pause_s=pause, outcome=st,
                        value=repr(v)[:200])
     time.sleep(0.3)
     leaked = threading.active_count() - base_threads
